@@ -21,6 +21,12 @@ from . import cond_spec as S
 CC = "chia_consensus::"
 
 
+def _shared(ctx):
+    # keys of AGG_SIG conditions are accepted only through the checked decoder (shared with C05.4)
+    from . import c05
+    c05.c05_4(ctx, R="C01.2")
+
+
 def run(ctx):
     ctx.explanation = (
         "TBL rules: the complete accepting-path sets of parse_opcode, of every arm of parse_args (selected by constant "
@@ -33,6 +39,7 @@ def run(ctx):
     ctx.assumptions += ["the rows of spec/conditions.json are the consensus rules (reviewed against README / public condition list)",
                         "N: quantitative end-to-end equality on concrete trees"]
     spec = S.load()
+    _shared(ctx)
     c01_1(ctx, spec)
     c01_2(ctx, spec, rule="C01.2")
     c01_3(ctx, spec)
@@ -124,10 +131,11 @@ def c01_2(ctx, spec, rule="C01.2", only=None):
         ctx.ob(R, "op:%s" % row["name"], ok, detail, where=b.fn.sp, found=found)
         if n <= 2 or row["op"] in (51, 80):
             ctx.sample({"rule": R, "op": row["name"], "paths": [[sorted(map(str, f)), str(r)] for f, r in sorted(got, key=str)][:3]})
-    if only:
+    if only and "two-byte" not in only:
         ctx.floor(R, "lock/birth opcode rows", n, 10)
         return
-    ctx.floor(R, "opcode rows", n, 35)
+    if not only:
+        ctx.floor(R, "opcode rows", n, 35)
     # 2-byte opcodes (sampled range ends and interior points; the arm is one range pattern)
     lo, hi = spec["two_byte"]["range"]
     for op in (lo, lo + 1, 0x1234, 0xff00, hi):
@@ -136,6 +144,8 @@ def c01_2(ctx, spec, rule="C01.2", only=None):
         ctx.ob(R, "op:two-byte:%d" % op, got == S.expected_two_byte(op),
                "2-byte opcode %d: accepted only without NO_UNKNOWN_CONDS, cost from the table" % op,
                found=None if got == S.expected_two_byte(op) else _diff(got, S.expected_two_byte(op)))
+    if only:
+        return
     # every value outside the table and outside the 2-byte range has no accepting path
     known = {r["op"] for r in spec["rows"]}
     bad = []
